@@ -56,6 +56,7 @@ def variantOf : String → Except String Variant
   | "pinned" => pure .pinned
   | "coarseOnly" => pure .coarseOnly
   | "current" => pure .current
+  | "noRenorm" => pure .noRenorm
   | "ltChanged" => pure .ltChanged
   | s => throw ("bad variant " ++ s)
 
